@@ -69,7 +69,7 @@ package wallet
 //@   property C20
 //@   opt callthrough
 //@   requires wf: w != nil && tx != nil && txRec != nil && w.Manager != nil && w.TxStore != nil
-//@   ensures recorded_on_success: err == nil ==> recorded == old(recorded) + 1
+//@   ensures recorded_on_success@C20@C06: err == nil ==> recorded == old(recorded) + 1
 //@   ensures recorded_at_most_once: old(recorded) <= recorded && recorded <= old(recorded) + 1
 //@   ensures no_broadcast: sentToBackend == old(sentToBackend) && notifyCalls == old(notifyCalls) && removalRuns == old(removalRuns) && dbCommits == old(dbCommits)
 
